@@ -18,6 +18,7 @@ func init() {
 			c.run("C06-R2", "WHO-CALLS/GUARD-DOM: exactly one start per detection; suppression tests precede a trigger", c06R2)
 			c.run("C06-R4", "LITERAL/GUARD-DOM: the trigger's mode letter selects its action", c06Dispatch)
 			c.run("C06-S1", "shared with C16-R8: the repeated-id test asks the environment predicate (a Windows console on the path, not only a Windows host)", c16WinPredicates)
+			c.run("C06-S2", "shared with C05-R4: the handler gives the session up on every exit (also when the transfer goes to the background), so the next trigger starts a transfer", c05R4)
 			c.run("C06-R3", "LITERAL: suppression words are words the code prints", c06R3)
 		})
 }
@@ -520,9 +521,9 @@ func c06R3(c *Ctx) {
 func c06Dispatch(c *Ctx) {
 	f := c.fn("TrzszFilter.handleTrzsz$1")
 	type want struct {
-		letter   byte
-		callee   string
-		dirArg   int // -1: none, 0: false, 1: true
+		letter byte
+		callee string
+		dirArg int // -1: none, 0: false, 1: true
 	}
 	wants := []want{{'S', "(*trzsz.TrzszFilter).downloadFiles", -1}, {'R', "(*trzsz.TrzszFilter).uploadFiles", 0}, {'D', "(*trzsz.TrzszFilter).uploadFiles", 1}}
 	for _, w := range wants {
@@ -547,7 +548,10 @@ func c06Dispatch(c *Ctx) {
 		c.check(good && n == 1, "handleTrzsz/mode="+string(rune(w.letter)), c.pos(f.Pos()), "this mode letter runs exactly its action", "the mode letter '"+string(rune(w.letter))+"' does not run exactly its action (download for S, upload for R, directory upload for D)")
 	}
 	// and the servers print the letter of what they are about to do: trz -> R, trz -d -> D, tsz -> S
-	for _, m := range []struct{ fn string; plain string }{{"TrzMain", "R"}, {"TszMain", "S"}} {
+	for _, m := range []struct {
+		fn    string
+		plain string
+	}{{"TrzMain", "R"}, {"TszMain", "S"}} {
 		mf := c.fn(m.fn)
 		found := false
 		for _, ci := range callsIn(mf, idIs("fmt.Sprintf")) {
